@@ -83,6 +83,10 @@ type queuesInv struct {
 	catchUp               int
 	heldPlaced, notHeld   int
 	prevReleased          map[string]bool
+	// model-owned registry: consensus addresses each operator has set and that have not been
+	// pruned / removed yet (independent of the chain's own "previous key" bookkeeping)
+	owned          []map[string]bool
+	replacedInEpoch map[int]int64 // operator -> epoch of its first not-yet-matured replacement
 }
 
 func (q *queuesInv) Init(m *Machine) error {
@@ -95,6 +99,48 @@ func (q *queuesInv) Init(m *Machine) error {
 	q.kindsReleased = map[string]int{}
 	q.regEpochs = map[int64]bool{}
 	q.lastClosed = q.before.Epoch - 1
+	q.owned = make([]map[string]bool, len(m.W.Operators))
+	q.replacedInEpoch = map[int]int64{}
+	for i := range q.owned {
+		q.owned[i] = map[string]bool{}
+		if q.before.Ops[i].HasKey {
+			q.owned[i][q.before.Ops[i].Key] = true
+		}
+	}
+	return nil
+}
+
+// activeOwned: does any key the operator has set (and that is not pruned yet) sit in the
+// consensus validator set?
+func (q *queuesInv) activeOwned(m *Machine, op int) bool {
+	for k := range q.owned[op] {
+		if m.C.ValSet.HasAddress([]byte(k)) {
+			return true
+		}
+	}
+	return false
+}
+
+func (q *queuesInv) optOutEntry(op int) *queueEntry {
+	for _, en := range q.entries {
+		if en.Kind == "optout" && en.Op == op {
+			return en
+		}
+	}
+	return nil
+}
+
+// MidBlock runs between EndBlock/Commit and the next BeginBlock: the per-block pending lists
+// must have been consumed.
+func (q *queuesInv) MidBlock(m *Machine) error {
+	for _, kv := range m.C.Dump(m.C.CommittedCtx(), "dogfood") {
+		if len(kv.Key) == 1 && (kv.Key[0] == 8 || kv.Key[0] == 9 || kv.Key[0] == 10) && len(kv.Value) > 0 {
+			return violation("C16.I4.pending-not-cleared", "pending list (store key %d) still holds %d bytes after EndBlock of height %d: it would be applied again", kv.Key[0], len(kv.Value), m.C.Height)
+		}
+		if len(kv.Key) == 1 && kv.Key[0] == 11 {
+			return violation("C16.I4.pending-not-cleared", "epoch-end marker still set after EndBlock of height %d", m.C.Height)
+		}
+	}
 	return nil
 }
 
@@ -207,6 +253,11 @@ func (q *queuesInv) After(m *Machine, a *Action, o Outcome) error {
 		for e := b.Epoch; e < now.Epoch; e++ {
 			q.closedPending = append(q.closedPending, e)
 		}
+		if now.Epoch > b.Epoch {
+			// the chain forgets "previous keys" at the EndBlock that follows an epoch end; a
+			// replacement in the block in progress already belongs to the new epoch
+			q.replacedInEpoch = map[int]int64{}
+		}
 		if now.Epoch-b.Epoch > 1 {
 			return violation("C16.I3.epoch-jump", "dogfood epoch advanced from %d to %d in one block", b.Epoch, now.Epoch)
 		}
@@ -257,12 +308,16 @@ func (q *queuesInv) After(m *Machine, a *Action, o Outcome) error {
 			}
 			of := b.Ops[opIdx]
 			wantHold, E := uint64(0), int64(0)
+			oe := q.optOutEntry(opIdx)
 			switch {
-			case of.Removing && of.FinishEp >= 0:
-				wantHold, E = 1, of.FinishEp
+			case oe != nil && !q.dueNowHas(oe.E):
+				// opting out: the undelegation matures together with the opt out
+				wantHold, E = 1, oe.E
+			case oe != nil:
+				// opt out matures at the end of this very block: nothing at stake any more
 			case of.Removing:
-				// opt out matures at the end of this very block (or was never active): nothing at stake
-			case of.HasKey && (of.KeyActive || (of.HasPrev && of.PrevActive)):
+				// (never active: completes at once)
+			case q.activeOwned(m, opIdx):
 				wantHold, E = 1, b.Epoch+b.N
 			}
 			if u.Hold != wantHold {
@@ -281,10 +336,13 @@ func (q *queuesInv) After(m *Machine, a *Action, o Outcome) error {
 			break
 		}
 		of := b.Ops[a.Op]
-		if of.HasKey && (of.KeyActive || (of.HasPrev && of.PrevActive)) {
+		if of.HasKey && q.activeOwned(m, a.Op) {
 			q.entries = append(q.entries, &queueEntry{Kind: "optout", ID: of.Key, Op: a.Op, E: b.Epoch + b.N, RegEp: b.Epoch, RegN: b.N})
 			q.regEpochs[b.Epoch] = true
 			// holds already placed on this operator's undelegations keep their own epochs
+		} else if of.HasKey {
+			// never active with any key: the removal completes at once
+			q.owned[a.Op] = map[string]bool{}
 		}
 	case "setKey":
 		if !o.OK {
@@ -292,9 +350,26 @@ func (q *queuesInv) After(m *Machine, a *Action, o Outcome) error {
 		}
 		of := b.Ops[a.Op]
 		nf := now.Ops[a.Op]
-		if of.HasKey && nf.HasKey && of.Key != nf.Key && of.KeyActive && !of.HasPrev {
-			q.entries = append(q.entries, &queueEntry{Kind: "prune", ID: of.Key, Op: a.Op, E: b.Epoch + b.N, RegEp: b.Epoch, RegN: b.N})
-			q.regEpochs[b.Epoch] = true
+		if nf.HasKey {
+			q.owned[a.Op][nf.Key] = true
+		}
+		if of.HasKey && nf.HasKey && of.Key != nf.Key {
+			_, replacedAlready := q.replacedInEpoch[a.Op]
+			switch {
+			case m.C.ValSet.HasAddress([]byte(of.Key)) && !replacedAlready:
+				q.entries = append(q.entries, &queueEntry{Kind: "prune", ID: of.Key, Op: a.Op, E: b.Epoch + b.N, RegEp: b.Epoch, RegN: b.N})
+				q.regEpochs[b.Epoch] = true
+				q.replacedInEpoch[a.Op] = b.Epoch
+			case !m.C.ValSet.HasAddress([]byte(of.Key)):
+				// a key that never became active is dropped at once
+				delete(q.owned[a.Op], of.Key)
+			}
+		}
+	case "optIn":
+		if o.OK {
+			if nf := now.Ops[a.Op]; nf.HasKey {
+				q.owned[a.Op][nf.Key] = true
+			}
 		}
 	}
 	// outside block ends no hold count of an existing record changes
@@ -308,7 +383,22 @@ func (q *queuesInv) After(m *Machine, a *Action, o Outcome) error {
 
 func (q *queuesInv) isEntryJustReleased(key string, due map[int64]bool) bool { return q.prevReleased[key] }
 
+func (q *queuesInv) dueNowHas(e int64) bool {
+	for _, x := range q.closedPending {
+		if x == e {
+			return true
+		}
+	}
+	return false
+}
+
 func (q *queuesInv) noteRelease(en *queueEntry, now dogfoodFacts) {
+	switch en.Kind {
+	case "prune":
+		delete(q.owned[en.Op], en.ID)
+	case "optout":
+		q.owned[en.Op] = map[string]bool{}
+	}
 	q.kindsReleased[en.Kind]++
 	if q.prevReleased == nil {
 		q.prevReleased = map[string]bool{}
